@@ -324,6 +324,38 @@ pub fn run(e: &Engine) {
         |c| c.to_json(),
         check,
     );
+    // larger files in the old versions (2- and 3-byte deltas, wide nodes on the seek path)
+    let bigs: Vec<(gen::Recipe, u64)> = (0..e.tier.pick(6u64, 30)).map(|i| (gen::Recipe { kind: (1 + i % 2) as u8, n: 8_000 + i * 9_000, seed: crate::engine::mix(e.seed, 900 + i), fanout: [3u8, 5, 16, 3, 9, 16][(i % 6) as usize], keylen: 9 + (i % 5) as u8, values: (i % 3) as u8 }, 1 + (i % 3))).collect();
+    e.run_list("large-reference-encoded-files", &bigs, |(r, v)| json!({"recipe": r.to_json(), "version": v}), |(r, v), rec| {
+        rec.eval();
+        let pairs = r.pairs();
+        let bytes = refcodec::encode(&pairs, *v, 0, Policy { share: true, use_otn: true, wide: false });
+        let f = fst::raw::Fst::new(&bytes[..]).map_err(|e| Fail::new("open-failed", format!("version {} file of {} bytes: {:?}", v, bytes.len(), e)))?;
+        let got = gen::collect_stream(f.stream());
+        vensure!(got == pairs, "stream-mismatch", "version {} file of {} bytes: stream differs from the content", v, bytes.len());
+        let step = (pairs.len() / 1500).max(1);
+        let sample: Pairs = pairs.iter().step_by(step).cloned().collect();
+        let (probes, _) = oracle::probes(&sample, false, &[]);
+        oracle::check_lookups(&bytes, &pairs, &probes).map_err(|f| Fail::new(&f.sig, format!("version {} file of {} bytes: {}", v, bytes.len(), f.msg)))?;
+        for j in 0..60usize {
+            let i = (crate::engine::mix(r.seed, j as u64) % pairs.len() as u64) as usize;
+            let mut lo = pairs[i].0.clone();
+            if j % 2 == 0 {
+                lo.push(0);
+            }
+            let hi = pairs[(i + 1 + j % 30).min(pairs.len() - 1)].0.clone();
+            let b: oracle::Bounds = vec![(if j % 3 == 0 { oracle::Kind::Gt } else { oracle::Kind::Ge }, lo), (oracle::Kind::Le, hi)];
+            let want = oracle::model_range(&pairs, &b);
+            let got = gen::collect_stream(oracle::apply_raw(f.range(), &b));
+            vensure!(got == want, "range-mismatch", "version {} file of {} bytes: range{} differs from the model", v, bytes.len(), oracle::bounds_show(&b));
+        }
+        rec.class(&format!("large_v{}", v));
+        if bytes.len() > 1 << 16 {
+            rec.class("old_version_file_over_64KiB");
+        }
+        rec.nontrivial(H::new().u(r.n).u(r.seed).u(*v).get());
+        Ok(())
+    });
     // header sweep: version x length x remainder
     let versions: [u64; 9] = [0, 1, 2, 3, 4, 255, 256, 1 << 32, u64::MAX];
     let seed = e.seed;
